@@ -482,6 +482,39 @@ end field
 theorem guardFinite_rat (si : ℚ × ℚ) : guardFinite si = si := by
   simp [guardFinite, isFinite]
 
+section clampExact
+variable {α : Type} [Field α] [LinearOrder α] [IsStrictOrderedRing α]
+
+/-- **C20.clamp_exact** — `predict` clamps and does nothing else: a raw prediction already inside `[lo, hi]` is
+stored unchanged (and the delta is `|observed − raw|`), one below `lo` becomes exactly `lo`, one above `hi` exactly
+`hi`; and for an observed value inside the range clamping never increases the reported delta. Any ordered field. -/
+theorem clamp_exact (lo hi r obs : α) (h : lo ≤ hi) :
+    let out := predictOut (fun x : α => x) (fun x : α => |x|) lo hi r obs
+    (lo ≤ r → r ≤ hi → out.1 = r ∧ out.2 = |obs - r|) ∧
+    (r < lo → out.1 = lo) ∧ (hi < r → out.1 = hi) ∧
+    (lo ≤ obs → obs ≤ hi → out.2 ≤ |obs - r|) := by
+  intro out
+  have h1 : out.1 = clamp r lo hi := rfl
+  have h2 : out.2 = |obs - clamp r lo hi| := rfl
+  refine ⟨?_, ?_, ?_, ?_⟩
+  · intro a b
+    have : clamp r lo hi = r := by
+      unfold clamp; rw [if_neg (not_lt.mpr a), if_neg (not_lt.mpr b)]
+    rw [h1, h2, this]; exact ⟨rfl, rfl⟩
+  · intro a; rw [h1]; unfold clamp; rw [if_pos a]
+  · intro a; rw [h1]; unfold clamp; rw [if_neg (not_lt.mpr (h.trans a.le)), if_pos a]
+  · intro a b
+    rw [h2]; unfold clamp
+    split
+    · rename_i c
+      rw [abs_of_nonneg (sub_nonneg.mpr a), abs_of_nonneg (by linarith)]; linarith
+    · split
+      · rename_i c d
+        rw [abs_of_nonpos (sub_nonpos.mpr b), abs_of_nonpos (by linarith)]; linarith
+      · exact le_refl _
+
+end clampExact
+
 /-- if file `g`'s column of the RT matrix is the affine image of file `f`'s column, so is its list of
     regression points -/
 theorem pairs_affine (rows : List (Row ℚ)) (f g : Nat) (a b : ℚ)
